@@ -187,9 +187,9 @@ def step (w : World) (toks : List String) : World × String :=
   | ["read", e, n] =>
     match getEp w e, n.toNat? with
     | some s, some n =>
-      match s.readMessageBytes n (inWire w e) with
+      match s.readMessageBytes n with
       | .error er => (w, errStr er)
-      | .ok (s', d, rest) => (setInWire (setEp w e s') e rest, s!"ok {showBytes d}")
+      | .ok (s', d) => (setEp w e s', s!"ok {showBytes d}")
     | _, _ => (w, "bad-op")
   | ["endread", e] =>
     match getEp w e with
@@ -210,7 +210,7 @@ def step (w : World) (toks : List String) : World × String :=
       | .ok f => (w, s!"ok flags={f.flags} key={f.key} eiv={f.encIV.w0}:{hexOf f.encIV.tail} div={f.decIV.w0}:{hexOf f.decIV.tail} ectr={f.encCtr} dctr={f.decCtr} fs={f.fs.length} fr={f.fr.length} peer={showBytes f.peer}")
     | _ => (w, "bad-op")
   | ["import", e, blobHex] =>
-    match unhexAux blobHex.toList with
+    match (if blobHex == "-" then some [] else unhexAux blobHex.toList) with
     | some blob =>
       match importBlob blob with
       | .error er => (w, errStr er)
